@@ -46,8 +46,11 @@ class WFQ(Scheduler):
         """
         weight_sum = 0.0
         now = self.env.now
-        for i in self.active_set:
-            weight_sum += self.weights[i]
+        # add in the order of the weight table: a set of string ids iterates
+        # in hash order, and a float sum depends on the order of its terms
+        for i in self.weights:
+            if i in self.active_set:
+                weight_sum += self.weights[i]
         self.vtime += (now - self.last_time) / weight_sum
 
     def reset_vtime(self):
